@@ -1,6 +1,7 @@
 package c18
 
 import (
+	"flag"
 	"testing"
 
 	"verif/harness/pbt"
@@ -18,15 +19,19 @@ func TestProp(t *testing.T) {
 	)
 	r.RequireLabel("conn-shared-by>=2", "cancel-while-another-subscribe-of-same-tuple-in-flight",
 		"terminal-for-one-then-traffic-for-another-on-same-conn", "cancel-of-one-then-traffic-for-another-on-same-conn",
-		"twin:compared", "sse", "ws:graphql-ws", "ws:graphql-transport-ws", "drop:hit-established-subscription", "idle>0")
+		"twin:compared", "sse", "ws:graphql-ws", "ws:graphql-transport-ws", "drop:hit-established-subscription", "idle>0",
+		"ping:subscription-on-silent-connection", "ping:subscription-on-healthy-connection-with-traffic")
+	// A failing liveness clause costs watch+2*grace per attempt; keep shrinking from multiplying that.
+	_ = flag.Set("rapid.shrinktime", "8s")
 	r.Regress(dispatch())
 	r.RunProbes(probes())
 	steppedPart.Run(r)
 	burstPart.Run(r)
+	pingPart.Run(r)
 }
 
 func TestReplay(t *testing.T) { pbt.StdReplay(t, "C18", dispatch()) }
 
 func dispatch() pbt.Dispatch {
-	return pbt.Dispatch{}.Add(steppedPart.Name, steppedPart.Handler()).Add(burstPart.Name, burstPart.Handler()).WithProbes(probes())
+	return pbt.Dispatch{}.Add(steppedPart.Name, steppedPart.Handler()).Add(burstPart.Name, burstPart.Handler()).Add(pingPart.Name, pingPart.Handler()).WithProbes(probes())
 }
